@@ -315,7 +315,7 @@ def gen_cases(out, tier):
                 escapes += 1
                 continue
             cand = [(i, gb) for i, gb in g.tiles(bb)]
-            tab = [(i, bool(poly.disjoint(gb.extent))) for i, gb in cand]
+            tab = [(i, bool(poly.disjoint(gb.extent) or poly.touches(gb.extent))) for i, gb in cand]   # oracle: no overlap
             got = [i for i, _ in g.tiles_from_geopolygon(poly)]
             ctab = "[" + "; ".join(ctuple(cz(i[0]), cz(i[1]), cbool(d)) for i, d in tab) + "]"
             add("tiles_from_geopolygon", f"CPoly {cp} {cq(QTOL)} {cq4(b)} {ctab} {cidx(got)}", (p, pts),
@@ -459,7 +459,7 @@ def p_poly(p, pts, crs):
     poly = geom.polygon(pts + [pts[0]], crs)
     got = [i for i, _ in g.tiles_from_geopolygon(poly)]
     pp = poly.to_crs(CRS, check_and_fix=True) if crs != CRS else poly
-    want = [i for i, gb in g.tiles(pp.boundingbox) if not pp.disjoint(gb.extent)]
+    want = [i for i, gb in g.tiles(pp.boundingbox) if not (pp.disjoint(gb.extent) or pp.touches(gb.extent))]
     if got != want:
         return False, f"returned={got[:10]} candidates-not-disjoint={want[:10]}"
     rng = core.rng("c14-poly-" + repr(pts))
@@ -502,7 +502,7 @@ def p_shape(p, parts):
     return _judge_shape(p, sh, got)
 
 
-def _judge_shape(p, sh, got, rel=1e-9):
+def _judge_shape(p, sh, got, rel=1e-9, strict_touch=False):
     from shapely.geometry import box
     (ox_, szx, dx_), (oy_, szy, dy_) = axis_of(p, "x"), axis_of(p, "y")
     x0, y0, x1, y1 = (F(v) for v in sh.bounds)
@@ -520,6 +520,9 @@ def _judge_shape(p, sh, got, rel=1e-9):
             a = sh.intersection(t).area
             if a > rel * area_t and (ix, iy) not in got:
                 return False, f"tile {(ix, iy)} overlaps the query by {a / area_t:.4f} of a tile but is missing: returned {len(got)} tiles {got[:8]}"
+            if strict_touch and (ix, iy) in got and a == 0:
+                return False, (f"tile {(ix, iy)} [{float(xa)},{float(xb)}]x[{float(ya)},{float(yb)}] shares only boundary points with the query "
+                               f"(intersection area 0) but is returned ({len(got)} tiles returned: {sorted(got)[:10]})")
             if (ix, iy) in got and sh.distance(t) > max(1e-6, rel ** 0.5) * float(min(szx, szy)):
                 return False, (f"tile {(ix, iy)} [{float(xa)},{float(xb)}]x[{float(ya)},{float(yb)}] is {sh.distance(t) / float(min(szx, szy)):.3f} tile sizes away "
                                f"from the query (disjoint) but is returned ({len(got)} tiles returned)")
@@ -625,6 +628,161 @@ def gen_shape(rng, p):
     return [([P(0, 0), P(e, 0), P(e, e), P(0, e)], []), ([P(ax, ay), P(ax + e, ay), P(ax + e, ay + e), P(ax, ay + e)], [])]
 
 
+def p_touch(p, parts):
+    """rectilinear queries whose vertices lie on tile corners (exactness domain): a tile is returned iff it overlaps the
+    query with positive area; tiles that share only an edge or a corner with it are not returned"""
+    from odc.geo.geom import Geometry
+    g = make_grid(p)
+    sh = shape_geom(parts)
+    if not sh.is_valid or sh.area == 0:
+        return True, "degenerate shape (not judged)"
+    got = [tuple(i) for i, _ in g.tiles_from_geopolygon(Geometry(sh, CRS))]
+    return _judge_shape(p, sh, got, strict_touch=True)
+
+
+def gen_touch(rng):
+    """grid with dyadic tile size and origin; L, U, staircase and corner-touching squares in whole tile units"""
+    n = rng.choice([1, 2, 4, 8])
+    r = float(F(2) ** rng.choice([-2, 0, 1, 3]))
+    p = (n, n * rng.choice([1, 2]), -r * rng.choice([1, -1]), r * rng.choice([1, -1]), float(rng.choice([0, 0, 16, -40])),
+         float(rng.choice([0, 0, -8, 24])), rng.random() < 0.5, rng.random() < 0.5)
+    (ox_, szx, _), (oy_, szy, _) = axis_of(p, "x"), axis_of(p, "y")
+    kx, ky, m = rng.randint(-3, 3), rng.randint(-3, 3), rng.choice([1, 1, 2])
+
+    def P(u, v):
+        return (float(ox_ + (kx + m * u) * szx), float(oy_ + (ky + m * v) * szy))
+    kind = rng.choice(["L", "U", "stairs", "corners", "plus"])
+    if kind == "L":
+        return p, [([P(0, 0), P(2, 0), P(2, 1), P(1, 1), P(1, 2), P(0, 2)], [])]
+    if kind == "U":
+        return p, [([P(0, 0), P(3, 0), P(3, 2), P(2, 2), P(2, 1), P(1, 1), P(1, 2), P(0, 2)], [])]
+    if kind == "stairs":
+        return p, [([P(0, 0), P(3, 0), P(3, 1), P(2, 1), P(2, 2), P(1, 2), P(1, 3), P(0, 3)], [])]
+    if kind == "corners":
+        return p, [([P(0, 0), P(1, 0), P(1, 1), P(0, 1)], []), ([P(1, 1), P(2, 1), P(2, 2), P(1, 2)], [])]
+    return p, [([P(1, 0), P(2, 0), P(2, 1), P(3, 1), P(3, 2), P(2, 2), P(2, 3), P(1, 3), P(1, 2), P(0, 2), P(0, 1), P(1, 1)], [])]
+
+
+XBIG = [
+    # (grid CRS, lon range, lat range, minimal width / height in degrees) of wide lon/lat queries
+    ("epsg:3577", (112, 152), (-40, -10), 10, 8),
+    ("epsg:3035", (-10, 40), (35, 68), 10, 8),
+    ("+proj=lcc +lat_1=30 +lat_2=50 +lat_0=40 +lon_0=100 +x_0=0 +y_0=0 +ellps=WGS84 +units=m +no_defs", (80, 120), (25, 55), 10, 8),
+    ("+proj=aea +lat_0=40 +lon_0=-96 +lat_1=20 +lat_2=60 +x_0=0 +y_0=0 +ellps=GRS80 +units=m +no_defs", (-125, -70), (25, 55), 12, 8),
+    ("epsg:32633", (9, 21), (30, 72), 6, 15),
+]
+
+
+def gen_xpoly_big(rng):
+    """wide lon/lat polygons (diamond, triangle with an apex in the middle of a bounding-box edge, densified rectangle)
+    on grids with 50-200 km tiles in conic / equal-area / UTM CRSs: the outline bulges past its projected bbox corners"""
+    gcrs, lr, br, minw, minh = rng.choice(XBIG)
+    w, h = rng.uniform(minw, min(30, lr[1] - lr[0])), rng.uniform(minh, min(25, br[1] - br[0]))
+    x0, y0 = rng.uniform(lr[0], lr[1] - w), rng.uniform(br[0], br[1] - h)
+    x1, y1 = x0 + w, y0 + h
+    kind = rng.choice(["diamond", "apex", "rect"])
+    if kind == "diamond":
+        pts = [((x0 + x1) / 2, y0), (x1, (y0 + y1) / 2), ((x0 + x1) / 2, y1), (x0, (y0 + y1) / 2)]
+    elif kind == "apex":
+        pts = rng.choice([[(x0, y0), (x1, y0), ((x0 + x1) / 2, y1)], [(x0, y1), ((x0 + x1) / 2, y0), (x1, y1)]])
+    else:
+        n = 40
+        pts = ([(x0 + w * k / n, y0) for k in range(n)] + [(x1, y0 + h * k / n) for k in range(n)] +
+               [(x1 - w * k / n, y1) for k in range(n)] + [(x0, y1 - h * k / n) for k in range(n)])
+    qpts = [(round(a, 5), round(b, 5)) for a, b in pts]
+    n = rng.choice([50, 100, 200])
+    r = float(rng.choice([500, 1000]))
+    p = (n, n, -r * rng.choice([1, 1, -1]), r * rng.choice([1, 1, -1]), rng.choice([0.0, 12345.0]), rng.choice([0.0, -54321.0]),
+         rng.random() < 0.3, rng.random() < 0.3)
+    return p, gcrs, qpts, "epsg:4326"
+
+
+def p_xbox(p, gcrs, b, bcrs):
+    """bounding-box query tagged with a CRS different from the grid's: it is either rejected (exception) or answered with
+    tiles that overlap the box's true footprint in the grid CRS - never silently read as grid coordinates.  Reference:
+    densified outline of the box through pyproj.Transformer(always_xy=True) called directly."""
+    from pyproj import Transformer
+    from shapely.geometry import Polygon, box
+    from odc.geo.geom import BoundingBox
+    g = make_grid(p, gcrs)
+    bb = BoundingBox(*b, crs=bcrs)
+    n = 50
+    x0, y0, x1, y1 = b
+    ring = ([(x0 + (x1 - x0) * k / n, y0) for k in range(n)] + [(x1, y0 + (y1 - y0) * k / n) for k in range(n)] +
+            [(x1 - (x1 - x0) * k / n, y1) for k in range(n)] + [(x0, y1 - (y1 - y0) * k / n) for k in range(n)])
+    tr = Transformer.from_crs(bcrs, gcrs, always_xy=True)
+    X, Y = tr.transform([q[0] for q in ring], [q[1] for q in ring])
+    sh = Polygon(list(zip(X, Y)))
+    if not sh.is_valid or sh.area == 0:
+        return True, "degenerate footprint (not judged)"
+    hull = box(*sh.bounds)
+    out_ = []
+    for name, call in (("tiles", lambda: [tuple(i) for i, _ in g.tiles(bb)]),
+                       ("idx_bounds", lambda: tuple(int(v) for v in g.idx_bounds(bb)))):
+        try:
+            got = call()
+        except Exception as e:
+            out_.append(f"{name}: rejected ({type(e).__name__})")
+            continue
+        if name == "idx_bounds":
+            ix1, iy1, ix2, iy2 = got
+            if (ix2 - ix1) * (iy2 - iy1) > 20000:
+                return False, f"idx_bounds answered a box given in {bcrs} with the index range {got} ({(ix2 - ix1) * (iy2 - iy1)} tiles)"
+            got = [(ix, iy) for iy in range(iy1, iy2) for ix in range(ix1, ix2)]
+        # answered: must contain every tile overlapping the true footprint and nothing outside its bounding box
+        ok, detail = _judge_shape(p, sh, [i for i in got], rel=1e-6)
+        if not ok and "missing" in detail:
+            return False, f"{name} answered a box given in {bcrs} as if it were in {gcrs[:20]}: {detail}"
+        ok2, detail2 = _judge_shape(p, hull, got, rel=1e-6)
+        if not ok2 and "missing" not in detail2:
+            return False, f"{name} answered a box given in {bcrs} as if it were in {gcrs[:20]}: {detail2}"
+        out_.append(f"{name}: answered with {len(got)} tiles")
+    return True, "; ".join(out_)
+
+
+def gen_xbox(rng):
+    gcrs, lr, br = rng.choice(XGRIDS)
+    n = rng.choice([50, 100, 256])
+    r = float(rng.choice([100, 400, 1000]))
+    p = (n, n, -r, r, 0.0, 0.0, rng.random() < 0.3, rng.random() < 0.3)
+    lon, lat = rng.uniform(*lr), rng.uniform(*br)
+    w, h = rng.uniform(0.2, 3), rng.uniform(0.2, 3)
+    return p, gcrs, (round(lon, 4), round(lat, 4), round(lon + w, 4), round(lat + h, 4)), "epsg:4326"
+
+
+def p_reprs(z, npix, p, ix, iy):
+    """numpy integer / float representations of zoom, tile size in pixels, tile indices, resolution and coordinates give
+    the same grid and the same tiles as the plain Python numbers"""
+    import numpy as np
+    from odc.geo import resyx_, xy_
+    from odc.geo.gridspec import GridSpec
+    ref = GridSpec.web_tiles(int(z), int(npix))
+    for zt, nt in ((np.int64, np.int64), (np.int32, np.int16), (np.uint8, np.int64)):
+        try:
+            g = GridSpec.web_tiles(zt(z), nt(npix))
+        except Exception as e:
+            return False, f"web_tiles({zt.__name__}({z}), {nt.__name__}({npix})) raised {type(e).__name__}: {e}"
+        for idx in ((0, 0), (2 ** z - 1, 2 ** z - 1), (1, 0)):
+            if tuple(g[idx].boundingbox.bbox) != tuple(ref[idx].boundingbox.bbox) or tuple(g[idx].shape) != tuple(ref[idx].shape):
+                return False, f"web_tiles({zt.__name__}({z}), {nt.__name__}({npix}))[{idx}] = {g[idx]} differs from the int version {ref[idx]}"
+    ny, nx, ry, rx, ox, oy, fx, fy = p
+    ref = make_grid(p)
+    try:
+        g = GridSpec(CRS, (np.int64(ny), np.int32(nx)), resyx_(np.float64(ry), np.float64(rx)),
+                     origin=xy_(np.float64(ox), np.float64(oy)), flipx=fx, flipy=fy)
+        a = g[np.int64(ix), np.int32(iy)]
+        b_ = g.tile_geobox((np.int64(ix), np.int64(iy)))
+        c = tuple(int(v) for v in g.pt2idx(np.float64(ox) + np.float64(rx), np.float32(oy)).xy)
+    except Exception as e:
+        return False, f"numpy-typed GridSpec{p} / index ({ix},{iy}) raised {type(e).__name__}: {e}"
+    r = ref[ix, iy]
+    if tuple(a.boundingbox.bbox) != tuple(r.boundingbox.bbox) or tuple(b_.boundingbox.bbox) != tuple(r.boundingbox.bbox) or tuple(a.shape) != tuple(r.shape):
+        return False, f"tile ({ix},{iy}) with numpy-typed arguments {a} differs from {r}"
+    if c != tuple(int(v) for v in ref.pt2idx(ox + rx, float(np.float32(oy))).xy):
+        return False, f"pt2idx with numpy floats {c} differs from the float version"
+    return True, "same grid and tiles"
+
+
 def p_sample(p, ix, iy):
     """a grid rebuilt from tile (ix,iy) has the same footprint for every index"""
     from odc.geo.gridspec import GridSpec
@@ -661,7 +819,7 @@ def p_web(z, npix):
     return True, f"zoom {z}: {n} tiles per side"
 
 
-PREDICATES = {"bin": p_bin, "point": p_point, "neigh": p_neigh, "tiles": p_tiles, "poly": p_poly, "shape": p_shape, "xpoly": p_xpoly, "many_crs": p_many_crs,
+PREDICATES = {"bin": p_bin, "point": p_point, "neigh": p_neigh, "tiles": p_tiles, "poly": p_poly, "shape": p_shape, "xpoly": p_xpoly, "many_crs": p_many_crs, "touch": p_touch, "xbox": p_xbox, "reprs": p_reprs,
               "sample": p_sample, "web": p_web}
 
 
@@ -688,6 +846,8 @@ def fix_args(name, args):
         args[1] = [tuple(pt) for pt in args[1]]
     if name == "xpoly":
         args[2] = [tuple(q) for q in args[2]]
+    if name == "touch":
+        args[1] = [([tuple(q) for q in o], [[tuple(q) for q in h] for h in hs]) for o, hs in args[1]]
     if name == "after_history":
         args[3] = fix_args(args[2], args[3])
     if name == "shape":
@@ -758,6 +918,15 @@ def search(out, tier):
         run("web", z, 256 if z % 2 == 0 else 512)
     for gi in range(20 if not big else 150):
         run("xpoly", *gen_xpoly(rng))
+    for gi in range(10 if not big else 80):
+        run("xpoly", *gen_xpoly_big(rng))
+    for gi in range(40 if not big else 300):
+        run("touch", *gen_touch(rng))
+    for gi in range(12 if not big else 80):
+        run("xbox", *gen_xbox(rng))
+    for gi in range(8 if not big else 40):
+        pp_ = gen_params(rng, small=True)
+        run("reprs", rng.randint(0, 12), rng.choice([1, 256, 512]), pp_, rng.randint(-9, 9), rng.randint(-9, 9))
     run("many_crs", 160 if not big else 400, rng.randrange(1000))
     # process histories of the CRS layer, evaluated in a fresh interpreter (tools/vlib/c12c14_hist.py); a violation is
     # recorded through the "after_history" predicate, which applies the perturbations first
@@ -825,7 +994,7 @@ def run(out, tier, scratch):
     out.assumptions += [
         "process histories of odc.geo.crs (tools/vlib/crshist.py) evaluated in a fresh interpreter: cross-CRS polygon queries (xpoly, many_crs) are judged against pyproj.Transformer(always_xy=True) called directly, never against Geometry.to_crs",
         "exact-rational model of binary64: theorems are about exact arithmetic; the correspondence is exact on the dyadic domain",
-        "oracle: shapely disjoint(polygon, tile extent) and the CRS conversion + bounding box of query polygons "
+        "oracle: shapely (disjoint or touches)(polygon, tile extent) = no overlap, and the CRS conversion + bounding box of query polygons "
         "(universally quantified function parameters in the theorem; replayed from the real calls in the correspondence)",
         "the constant 1e-8 of idx_bounds enters the model as the parameter tol = Fraction(1e-8)",
         "math.pi*R is an opaque positive constant h in the web-tile theorem",
